@@ -774,10 +774,8 @@ fn run_packet(input: &[u8]) -> Kvs {
         Ok(Err(e)) => out.push(("r".to_string(), err(perr(&e)))),
         Ok(Ok(p)) => {
             out.push(("r".to_string(), ok(obs_packet(input, &p))));
-            let (r, v) = match &p {
-                Packet::Unknown(u) => obs_uconv(input, u),
-                _ => obs_conv(input, &p),
-            };
+            // Packet::try_as / TryFrom<Packet> for every variant, the unknown one included
+            let (r, v) = obs_conv(input, &p);
             out.push(("conv".to_string(), r));
             out.push(("convv".to_string(), v));
         }
